@@ -264,3 +264,10 @@ Proof.
   assert (Hf := field_bits_bound (cv_of bv bytes) off w ltac:(lia)).
   rewrite wrap_unsigned by reflexivity. cbn [cbits]. rewrite Z.mod_small by lia. reflexivity.
 Qed.
+
+Lemma is_complete_wf : forall bv bytes off w, wf_field bv bytes off w -> is_complete bv w = true.
+Proof.
+  intros bv bytes off w [W Hobb Hw Hoff Hext]. unfold is_complete, bv_ok, bv_size_in_bits. rewrite Hobb.
+  cbn [ob_ok ob_size]. lia.
+Qed.
+
